@@ -6,9 +6,11 @@ CONSTANTS
   F = "f"
   AuthorOrder <- MC_AuthorOrder
   RemoteBodies <- MC_RemoteBodiesQ
+  RemotePrunes <- MC_RemotePrunesQ
   Policies = {"auto", "explicit"}
   ResetHeights <- MC_ResetHeights
   MaxPub = 1
+  MaxPrune = 1
   MaxImp = 1
   MaxAck = 1
   MaxForeign = 1
@@ -21,6 +23,7 @@ INVARIANTS
   LocksConsistent
   StoredIsAssociated
   LogsContiguous
+  PrunedOnlyBelowPruneOp
   CursorIsMaxOfAcked
   OnlyOwnTopicAcked
   ReplayExact
